@@ -60,6 +60,7 @@ func runC09(c *Ctx) {
 	runC09B3c(c)
 	for _, f := range handlers {
 		runC09B4(c, f)
+		runC09B6(c, f)
 	}
 	runC09W1(c)
 }
@@ -349,6 +350,27 @@ func runC09B3(c *Ctx, ws *ssa.Function) {
 func isZero(v ssa.Value) bool {
 	k, ok := constInt(v)
 	return ok && k == 0
+}
+
+// runC09B6: a Peek on a default-sized bufio.Reader cannot return more than its buffer (4096 bytes):
+// a computed Peek length makes the handler fail for larger first records.
+func runC09B6(c *Ctx, f *ssa.Function) {
+	eachInstr(f, func(i ssa.Instruction) {
+		call, ok := i.(*ssa.Call)
+		if !ok || calleeName(&call.Call) != "(*bufio.Reader).Peek" {
+			return
+		}
+		n, isK := constInt(call.Call.Args[1])
+		sized := false
+		derives(call.Call.Args[0], func(v ssa.Value) bool {
+			if _, ok := isCallTo(v, "bufio.NewReaderSize"); ok {
+				sized = true
+			}
+			return false
+		})
+		c.check("C09.B6", fnKey(f)+"|Peek length within the reader's buffer", call.Pos(), (isK && n <= 4096) || sized,
+			"bufio.Reader.Peek(n) fails with ErrBufferFull when n exceeds the reader's buffer (4096 bytes for bufio.NewReader): peeking a computed length (e.g. a whole ClientHello) rejects every connection whose first record is larger; read it with io.ReadFull and replay it instead")
+	})
 }
 
 func runC09B4(c *Ctx, f *ssa.Function) {
